@@ -6,6 +6,7 @@ use crate::engine::{Args, Ctx, ReplayDoc};
 
 pub mod c13;
 pub mod c13b;
+pub mod c19;
 pub mod c20;
 pub mod c11;
 pub mod envelope_props;
@@ -23,6 +24,7 @@ pub fn run(args: &Args) -> ! {
         "C15" => model_props::run_c15(args),
         "C16" => model_props::run_c16(args),
         "C20" => c20::run(args),
+        "C19" => c19::run(args),
         p => {
             eprintln!("INFRA: unknown property '{}'", p);
             std::process::exit(2)
@@ -51,6 +53,7 @@ pub fn replay_one(ctx: &Ctx, doc: &ReplayDoc) {
         "C11" => c11::replay_one(ctx, doc),
         "C04" | "C07" | "C15" | "C16" => model_props::replay_one(ctx, doc),
         "C20" => c20::replay_one(ctx, doc),
+        "C19" => c19::replay_one(ctx, doc),
         p => ctx.infra_error(format!("unknown property '{}' in replay file", p)),
     }
 }
@@ -59,6 +62,7 @@ pub fn replay_one(ctx: &Ctx, doc: &ReplayDoc) {
 pub fn worker_dispatch(sub: &str, v: Value) -> Value {
     match sub.split('.').next().unwrap_or("") {
         "C13" => c13::worker(sub, v),
+        "C19" => c19::worker(sub, v),
         _ => Value::Null,
     }
 }
